@@ -185,6 +185,30 @@ def run_C16(tier, seed, replay=None, procs=16):
     rt = FT.number([dict(copy.deepcopy(p), tag="roundtrip/" + p["tag"]) for p in base])
     res3 = engine.run_family(rt, {"build_kw": {"roundtrip": True}, "replay_per_problem": 0, "seed": seed}, procs=procs)
     viol = list(out["violations"])
+    # (c) cost functions alone: to_json() -> model_validate_json() must denote the same function
+    import itertools
+    import processscheduler as ps
+    import build as B
+    n_fun = 0
+    with B.silence():
+        ps.SchedulingProblem(name="functions", horizon=5)
+        specs = [("ConstantFunction", dict(value=v)) for v in (-2, 0, 1, 7)]
+        specs += [("LinearFunction", dict(slope=a, intercept=c)) for a, c in itertools.product((-1, 0, 2), (-3, 0, 5))]
+        specs += [("PolynomialFunction", dict(coefficients=list(cs))) for cs in ((1,), (0, 4), (2, 0, 1), (1, 2, 3, 4), (0, 0, 0), (-1, 0, 2, 0))]
+        for cls, kw in specs:
+            n_fun += 1
+            try:
+                f = getattr(ps, cls)(**kw)
+                g = getattr(ps, cls).model_validate_json(f.to_json())
+                vals = [(x, f(x), g(x)) for x in range(-2, 6)]
+                diff = [(x, a, c) for x, a, c in vals if a != c]
+            except Exception as ex:
+                diff = [f"{type(ex).__name__}: {ex}"]
+            if diff:
+                viol.append({"kind": "misreports", "summary": f"{cls}({kw}) does not survive its JSON round trip: {diff[:3]}",
+                             "clauses": ["R16_function_roundtrip"], "problem": {"tag": "function-roundtrip", "cons": [], "buffers": []},
+                             "tag": "function-roundtrip", "detail": {"cls": cls, "kw": kw, "diff": str(diff[:5])}})
+    out["coverage"]["function_roundtrips"] = n_fun
     for res in (res1, res2, res_after, res3):
         viol += props.collect("C16", res, {"sound", "complete"})
     cov = out["coverage"]
